@@ -21,6 +21,12 @@ VERIF = os.path.dirname(os.path.dirname(os.path.abspath(__file__)))
 CNAME = "xnotify"
 
 
+def cname_of(d):
+    """the name the definition is registered under: normally a new one; for some definitions the name of a command
+    the library already has (registering replaces the built-in definition, RFC extensions are added that way)"""
+    return d.get("cname", CNAME)
+
+
 def gen_defs(tier, seed):
     rng = random.Random(seed + 20)
     slot_shapes = []
@@ -57,7 +63,11 @@ def gen_defs(tier, seed):
                                                    {"tags": [":tc"], "ptype": "none", "pvals": None, "pfor": []}],
          "pos": ["N", "S"], "ptype_spelling": "str"},
     ]
-    return canon + defs[:n]
+    out = canon + defs[:n]
+    for k, d in enumerate(out):
+        if k % 6 == 4:
+            d["cname"] = "redirect" if d["kind"] == "action" else "exists"
+    return out
 
 
 def tla_entry(d):
@@ -68,7 +78,7 @@ def tla_entry(d):
     def pos(t):
         return {"S": "STR", "SL": "SL", "N": "NUM"}[t]
     return "(%s :> Entry(%s, %s, <<%s>>, <<%s>>, \"none\", FALSE, {}))" % (
-        tla_str(CNAME), tla_str(d["kind"]), tla_str(d["ext"]), ", ".join(slot(s) for s in d["slots"]),
+        tla_str(cname_of(d)), tla_str(d["kind"]), tla_str(d["ext"]), ", ".join(slot(s) for s in d["slots"]),
         ", ".join(pos(t) for t in d["pos"]))
 
 
@@ -103,7 +113,7 @@ def register(d):
     if d["ext"]:
         attrs["extension"] = d["ext"]
     # an earlier registration under the same name (another definition) must be replaced by the new one
-    v0 = type(CNAME.capitalize() + "Command", (I.scommands.ActionCommand,),
+    v0 = type(cname_of(d).capitalize() + "Command", (I.scommands.ActionCommand,),
               {"args_definition": [{"name": "only", "type": ["number"], "required": True}]})
     I.scommands.add_commands(v0)
     if (len(d["slots"]) + len(d["pos"])) % 2:
@@ -114,7 +124,7 @@ def register(d):
         I.scommands.add_commands(parent)
         I.sparser.Parser().parse(b"if xbase 5 { stop; }" if d["kind"] == "test" else b"xbase 5;")
         base = parent
-    cls = type(CNAME.capitalize() + "Command", (base,), attrs)
+    cls = type(cname_of(d).capitalize() + "Command", (base,), attrs)
     if len(d["pos"]) % 2:
         I.scommands.add_commands([cls])        # both documented call forms
     else:
@@ -122,7 +132,7 @@ def register(d):
 
 
 def vocab_for(d):
-    toks = [("id", CNAME)]
+    toks = [("id", cname_of(d))]
     if d["kind"] == "test":
         toks += [("id", "if"), ("id", "stop"), ("lc", ""), ("rc", "")]
     for s in d["slots"]:
@@ -152,7 +162,7 @@ def deep_uses(d):
             lst += ([("comma", "")] if i else []) + [("str", v)]
         lst.append(("rb", ""))
         for with_tags in (True, False):
-            toks = [("id", CNAME)]
+            toks = [("id", cname_of(d))]
             if with_tags:
                 for s in d["slots"]:
                     toks.append(("tag", s["pfor"][0] if s["pfor"] else s["tags"][0]))
@@ -186,7 +196,7 @@ def named_expectation(d, flat):
     """spec tree -> list of {argname: value} for the custom nodes"""
     out = []
     for name, par, role, args, blk in flat:
-        if name != CNAME:
+        if name != cname_of(d):
             continue
         m = {}
         npos = 0
@@ -217,11 +227,11 @@ def run(prop, tier, seed):
         sl = {"name": "custom%d" % idx, "vocab": vocab_for(d), "prelude": slices.req("xext") if d["ext"] else [],
               "custom": tla_entry(d), "devs": devs}
         runs.append(pengine.run_slice(sl, nlen, layouts, 2, 1, [" ;", " }", " stop;"], nproc=2, tlc_workers=2,
-                                      roundtrip=True, worker_setup=(register, d), named=CNAME))
+                                      roundtrip=True, worker_setup=(register, d), named=cname_of(d)))
         if d["ext"]:
             sl2 = dict(sl, name="custom%dnoext" % idx, prelude=[])
             runs.append(pengine.run_slice(sl2, 3, layouts, 2, 0, [], nproc=1, tlc_workers=2, roundtrip=True,
-                                          worker_setup=(register, d), named=CNAME))
+                                          worker_setup=(register, d), named=cname_of(d)))
         if any(t == "SL" for t in d["pos"]) or any(sx["ptype"] == "L" for sx in d["slots"]):
             if idx < (14 if tier == "quick" else 10 ** 6):
                 import multiprocessing as mp
